@@ -1,3 +1,123 @@
-"""ctypes declarations for the later bridge sections (json, builders, forth, virtual, partitions, forms/types)."""
+"""ctypes declarations and wrappers for the later bridge sections (json, forms/types, builders, forth, virtual, partitions)."""
+import ctypes
+from ctypes import c_void_p, c_char_p, c_int, c_int64, c_double, POINTER, byref
+
+NG = b"\x01"     # "not given" marker for optional C strings
+
+
 def declare(L):
-    pass
+    vp, cp, i, i64 = c_void_p, c_char_p, c_int, c_int64
+    S = {
+        "akb_tojson": (vp, [vp, i, i64, cp, cp, cp, cp, cp]),
+        "akb_tojson_file": (i, [vp, cp, i, i64, i64, cp, cp, cp, cp, cp]),
+        "akb_fromjson": (vp, [cp, i64, c_double, cp, cp, cp]),
+        "akb_fromjson_file": (vp, [cp, i64, c_double, i64, cp, cp, cp]),
+        "akb_form_free": (None, [vp]), "akb_form": (vp, [vp, i]), "akb_form_fromjson": (vp, [cp]),
+        "akb_form_tojson": (vp, [vp, i, i]), "akb_form_tostring": (vp, [vp]),
+        "akb_form_equal": (i, [vp, vp, i, i, i, i]),
+        "akb_form_purelist_depth": (i64, [vp]), "akb_form_minmax_depth": (i, [vp, POINTER(i64), POINTER(i64)]),
+        "akb_form_branch_depth": (i, [vp, POINTER(i64), POINTER(i64)]), "akb_form_purelist_isregular": (i, [vp]),
+        "akb_form_numfields": (i64, [vp]), "akb_form_haskey": (i, [vp, cp]), "akb_form_keys": (vp, [vp]),
+        "akb_type_free": (None, [vp]), "akb_type": (vp, [vp]), "akb_form_type": (vp, [vp]),
+        "akb_type_tostring": (vp, [vp]), "akb_type_equal": (i, [vp, vp, i]), "akb_typestr": (vp, [vp]),
+    }
+    for name, (res, args) in S.items():
+        try:
+            f = getattr(L, name)
+        except AttributeError:
+            continue
+        f.restype = res
+        f.argtypes = args
+
+
+def _o(s):
+    if s is None:
+        return NG
+    return s.encode("utf-8") if isinstance(s, str) else s
+
+
+class IoMixin(object):
+    # ---- json
+    def tojson(self, h, pretty=False, maxdecimals=-1, nan=None, inf=None, minf=None, creal=None, cimag=None):
+        return self._s(self.L.akb_tojson(h.p, int(pretty), maxdecimals, _o(nan), _o(inf), _o(minf), _o(creal), _o(cimag)))
+
+    def tojson_file(self, h, path, pretty=False, maxdecimals=-1, buffersize=65536, nan=None, inf=None, minf=None,
+                    creal=None, cimag=None):
+        rc = self.L.akb_tojson_file(h.p, path.encode(), int(pretty), maxdecimals, buffersize, _o(nan), _o(inf),
+                                    _o(minf), _o(creal), _o(cimag))
+        if rc != 0:
+            self._raise()
+
+    def fromjson(self, text, initial=1024, resize=1.5, nan=None, inf=None, minf=None):
+        if isinstance(text, str):
+            text = text.encode("utf-8", "surrogateescape")
+        return self._c(self.L.akb_fromjson(text, initial, resize, _o(nan), _o(inf), _o(minf)))
+
+    def fromjson_file(self, path, initial=1024, resize=1.5, buffersize=65536, nan=None, inf=None, minf=None):
+        return self._c(self.L.akb_fromjson_file(path.encode(), initial, resize, buffersize, _o(nan), _o(inf), _o(minf)))
+
+    # ---- forms / types
+    def _f(self, p):
+        from vlib.bridge import Handle
+        if not p:
+            self._raise()
+        return Handle(self, p, self.L.akb_form_free)
+
+    def _t(self, p):
+        from vlib.bridge import Handle
+        if not p:
+            self._raise()
+        return Handle(self, p, self.L.akb_type_free)
+
+    def form(self, h, materialize=False):
+        return self._f(self.L.akb_form(h.p, int(materialize)))
+
+    def form_fromjson(self, text):
+        return self._f(self.L.akb_form_fromjson(text.encode("utf-8")))
+
+    def form_tojson(self, f, pretty=False, verbose=False):
+        return self._s(self.L.akb_form_tojson(f.p, int(pretty), int(verbose)))
+
+    def form_equal(self, a, b, ids=True, params=True, formkey=True, compat=False):
+        return bool(self._n(self.L.akb_form_equal(a.p, b.p, int(ids), int(params), int(formkey), int(compat))))
+
+    def form_purelist_depth(self, f):
+        return self._n(self.L.akb_form_purelist_depth(f.p), -999)
+
+    def form_minmax_depth(self, f):
+        a, b = c_int64(), c_int64()
+        self._n(self.L.akb_form_minmax_depth(f.p, byref(a), byref(b)))
+        return (a.value, b.value)
+
+    def form_branch_depth(self, f):
+        a, b = c_int64(), c_int64()
+        self._n(self.L.akb_form_branch_depth(f.p, byref(a), byref(b)))
+        return (bool(a.value), b.value)
+
+    def form_purelist_isregular(self, f):
+        return bool(self._n(self.L.akb_form_purelist_isregular(f.p)))
+
+    def form_numfields(self, f):
+        return self._n(self.L.akb_form_numfields(f.p), -999)
+
+    def form_haskey(self, f, key):
+        return bool(self._n(self.L.akb_form_haskey(f.p, key.encode())))
+
+    def form_keys(self, f):
+        s = self._s(self.L.akb_form_keys(f.p))
+        return s.split("\x1f") if s else []
+
+    def type(self, h):
+        return self._t(self.L.akb_type(h.p))
+
+    def form_type(self, f):
+        return self._t(self.L.akb_form_type(f.p))
+
+    def type_tostring(self, t):
+        return self._s(self.L.akb_type_tostring(t.p))
+
+    def type_equal(self, a, b, check_parameters=True):
+        return bool(self._n(self.L.akb_type_equal(a.p, b.p, int(check_parameters))))
+
+    def typestr(self, h):
+        return self._s(self.L.akb_typestr(h.p))
